@@ -5,6 +5,7 @@ import ast
 
 from .. import AnalysisError, flow, states, rules, gd, cmp
 from ..report import Ctx
+from ..loader import parent
 from ..canon import alpha_text
 
 SSO = "nrel/hive/state/simulation_state/update/step_simulation_ops.py"
@@ -53,6 +54,7 @@ def run(ctx: Ctx):
     ctx.attempt(order, ctx)
     ctx.attempt(enqueue_time_writers, ctx)
     ctx.attempt(leave_queue, ctx)
+    ctx.attempt(built_in_candidates, ctx)
     ctx.attempt(head_of_line, ctx)
     ctx.attempt(first_update_after_grant, ctx)
     ctx.floor("ORD.queue-order", 3)
@@ -344,6 +346,29 @@ def first_update_after_grant(ctx: Ctx):
                               f"fails, the step (and the grant) is rolled back, and the vehicles that joined later are served while it waits",
                       construct=f"head-of-line:first-update:{txt[:140]}")
     ctx.require(n >= 2, f"charge(): only {n} vehicle-dependent failure conditions found")
+
+
+def built_in_candidates(ctx: Ctx):
+    """The built-in charging controller never instructs a vehicle that is waiting in a queue (an instruction for the station it stands at goes
+    through DispatchStation's 'already there' shortcut straight to the plug, past everybody who queued before): the activities its
+    candidate filter accepts do not include ChargeQueueing (nor the charging activities)."""
+    CFM = "nrel/hive/dispatcher/instruction_generator/charging_fleet_manager.py"
+    fn = ctx.repo.func(CFM, "ChargingFleetManager.generate_instructions")
+    n = 0
+    for node in ast.walk(fn.node):
+        if isinstance(node, ast.Call) and flow.dump(node.func) == "isinstance" and len(node.args) == 2 and flow.dump(node.args[0]).endswith(".vehicle_state"):
+            ks = node.args[1].elts if isinstance(node.args[1], ast.Tuple) else [node.args[1]]
+            names = [flow.dump(k) for k in ks]
+            n += 1
+            bad = [k for k in names if k in ("ChargeQueueing", "ChargingStation", "ChargingBase")]
+            # a negated test (`not isinstance(v.vehicle_state, ChargeQueueing)`) excludes: only positive acceptance counts
+            par = parent(node)
+            negated = isinstance(par, ast.UnaryOp) and isinstance(par.op, ast.Not)
+            ctx.check(not bad or negated, "D4", "GD.candidates", f"the charging controller's candidates are drawn from {names}", fn, node,
+                      why_bad=f"vehicles in {bad} are charge candidates: a queued vehicle is sent a DispatchStationInstruction for the station it is at and takes a freed plug ahead of "
+                              f"vehicles that joined the queue earlier",
+                      construct="ChargingFleetManager:candidates:" + ",".join(bad))
+    ctx.require(n >= 1, "ChargingFleetManager.generate_instructions: no activity test found in the candidate filter")
 
 
 def leave_queue(ctx: Ctx):
